@@ -627,12 +627,12 @@ Fixpoint clear (b : builder) : res builder :=
   | BFloat g => do g' <- gb_clear o g; Ok (BFloat g')
   | BString e offs cont => do offs' <- offsets0; do cont' <- gb_clear o cont; Ok (BString e offs' cont')
   | BOption idx ct => do idx' <- gb_clear o idx; do ct' <- clear ct; Ok (BOption idx' ct')
-  | BList offs ct begun => do offs' <- offsets0; do ct' <- clear ct; Ok (BList offs' ct' begun)   (* begun_ is kept *)
+  | BList offs ct begun => do offs' <- offsets0; do ct' <- clear ct; Ok (BList offs' ct' false)   (* begun_ = false (fix 954152d) *)
   | BRecord _ _ _ _ _ _ _ _ => Ok (BRecord [] [] [] true (-1) false (-1) 0)
   | BTuple _ _ _ _ => Ok (BTuple [] (-1) false (-1))
   | BUnion tags idx cs cur =>
       do tags' <- gb_clear o tags; do idx' <- gb_clear o idx; do cs' <- mapMs clear cs;
-      Ok (BUnion tags' idx' cs' cur)                                                              (* current_ is kept *)
+      Ok (BUnion tags' idx' cs' (-1))                                                             (* current_ = -1 (fix 6aeac8c) *)
   end.
 End Clear.
 
